@@ -405,7 +405,7 @@ def extra(repo, reg, tier, seed):
     return items
 
 
-def search(func, tier, seed):
+def search(func, tier, seed, obligation=""):
     """Bounded native search for an input on which the real code violates the C02 contract."""
     import itertools
     from fortls.parsers.internal.parser import FortranFile
